@@ -43,14 +43,23 @@ theorem withNewReg_sched {c : Dag} {P : Paths} {L : List (NodeId × Op)} (_g : G
     · rw [setPath_same, schedWire_eq_nil (fun p hp hm => hnl (hS.live p hp r' hm))]
       rfl
   · intro p
-    rw [hS.nodes p, hnodes, List.mem_append]
+    have hw : ∀ i o, wiredOp (setPath P r [.inp r, .out r]) (.op i) o = wiredOp P (.op i) o := by
+      intro i o
+      apply wiredOp_congr
+      intro j _
+      by_cases hj : (⟨.c, j⟩ : Reg) = r
+      · rw [hj, setPath_same, _g.inv.dead r hnl]; simp
+      · rw [setPath_other _ _ hj]
+    rw [hS.nodes p, hnodes]
     constructor
-    · rintro ⟨hi, hm⟩; exact ⟨hi, Or.inl hm⟩
-    · rintro ⟨⟨i, hi⟩, hm | hm⟩
-      · exact ⟨⟨i, hi⟩, hm⟩
+    · rintro ⟨⟨i, hi⟩, o, hm, ho⟩
+      exact ⟨⟨i, hi⟩, o, List.mem_append.mpr (Or.inl hm), by rw [ho, hi, hw]⟩
+    · rintro ⟨⟨i, hi⟩, o, hm, ho⟩
+      rcases List.mem_append.mp hm with hm | hm
+      · exact ⟨⟨i, hi⟩, o, hm, by rw [ho, hi, hw]⟩
       · exfalso
         simp at hm
-        rcases hm with rfl | rfl <;> simp at hi
+        rcases hm with ⟨h1, _⟩ | ⟨h1, _⟩ <;> rw [hi] at h1 <;> cases h1
   · intro p hp r' hr'
     exact (withNewReg_live c r r' hr).mpr (Or.inl (hS.live p hp r' hr'))
 
@@ -117,21 +126,42 @@ theorem add_sched {c : Dag} {P : Paths} {L : List (NodeId × Op)} (g : Good c P)
     · rw [hother r hr, schedWire_cons_neg (p := (NodeId.op (c.nodeId + 1), op)) hr, hS.wire r hl0]
       simp [schedWire]
   · intro p
-    rw [List.mem_append, hS.nodes p, hnodes, List.mem_append, List.mem_singleton]
+    have hP2 : ∀ k, P2 k = P' k := fun k => g2.inv.paths_unique hinv' k
+    have hold : ∀ n, n ≠ NodeId.op (c.nodeId + 1) → ∀ k, (n ∈ P2 k ↔ n ∈ P k) := by
+      intro n hn k
+      rw [hP2 k]
+      by_cases hk : k ∈ opRegs op
+      · obtain ⟨pre, h1, h2⟩ := happ k hk
+        rw [h1, h2]; simp [hn]
+      · rw [hother k hk]
+    have hnew : wiredOp P2 (.op (c.nodeId + 1)) op = op := by
+      apply wiredOp_eq_self
+      intro j hj
+      have hk : (⟨.c, j⟩ : Reg) ∈ opRegs op := by
+        unfold opRegs; exact List.mem_append.mpr (Or.inr (List.mem_map.mpr ⟨j, hj, rfl⟩))
+      obtain ⟨pre, _, h2⟩ := happ _ hk
+      rw [hP2, h2]; simp
+    rw [List.mem_append, hS.nodes p, hnodes, List.mem_singleton]
     constructor
-    · rintro (⟨hi, hm⟩ | rfl)
-      · exact ⟨hi, Or.inl hm⟩
-      · exact ⟨⟨_, rfl⟩, Or.inr rfl⟩
-    · rintro ⟨hi, hm | rfl⟩
-      · exact Or.inl ⟨hi, hm⟩
-      · exact Or.inr rfl
+    · rintro (⟨⟨i, hi⟩, o, hm, ho⟩ | rfl)
+      · have hne : p.1 ≠ .op (c.nodeId + 1) := fun e => hfresh (e ▸ mem_nodeIds.mpr ⟨o, hm⟩)
+        exact ⟨⟨i, hi⟩, o, List.mem_append.mpr (Or.inl hm),
+          by rw [ho]; exact (wiredOp_congr (fun j _ => hold _ hne _)).symm⟩
+      · exact ⟨⟨_, rfl⟩, op, List.mem_append.mpr (Or.inr (by simp)), hnew.symm⟩
+    · rintro ⟨hi, o, hm, ho⟩
+      rcases List.mem_append.mp hm with hm | hm
+      · have hne : p.1 ≠ .op (c.nodeId + 1) := fun e => hfresh (e ▸ mem_nodeIds.mpr ⟨o, hm⟩)
+        exact Or.inl ⟨hi, o, hm, by rw [ho]; exact wiredOp_congr (fun j _ => hold _ hne _)⟩
+      · simp only [List.mem_singleton, Prod.mk.injEq] at hm
+        right
+        exact Prod.ext hm.1 (by rw [ho, hm.1, hm.2]; exact hnew)
   · rw [List.map_append, List.nodup_append]
     refine ⟨hS.nodup, by simp, ?_⟩
     intro a ha b hb
     simp at hb; subst hb
     obtain ⟨p, hp, rfl⟩ := List.mem_map.mp ha
     intro e
-    exact hfresh (e ▸ mem_nodeIds.mpr ⟨p.2, ((hS.nodes p).mp hp).2⟩)
+    exact hfresh (e ▸ hS.mem_nodeIds hp)
   · intro p hp r hr
     rw [live_eq_of_regs hregs]
     rcases List.mem_append.mp hp with hp | hp
@@ -252,11 +282,13 @@ theorem unwrapNode_sched {c : Dag} {P : Paths} {L : List (NodeId × Op)} (g : Go
     ∃ L1 L2 P', L = L1 ++ (NodeId.op i, w) :: L2 ∧
       Good ((c.unwrapOne (.op i) w.unwrap).1.removeOp (.op i)).1 P' ∧
       Sched ((c.unwrapOne (.op i) w.unwrap).1.removeOp (.op i)).1 P' (L1 ++ newPairs c.nodeId w ++ L2) := by
-  have hwL : (NodeId.op i, w) ∈ L := (hS.nodes _).mpr ⟨⟨i, rfl⟩, hw⟩
-  obtain ⟨L1, L2, hL⟩ := List.append_of_mem hwL
-  obtain ⟨r, X, Y, P', hq, hP, g2, hP', hoth, _⟩ := unwrapNode_refines g hw hk
   have hwf := g.inv.op_wf i w hw
   obtain ⟨_, hc, _⟩ := hwf.wrapper_shape hk
+  have hwL : (NodeId.op i, w) ∈ L := by
+    have := hS.mem_of_node hw
+    rwa [wiredOp_of_cregs_nil hc] at this
+  obtain ⟨L1, L2, hL⟩ := List.append_of_mem hwL
+  obtain ⟨r, X, Y, P', hq, hP, g2, hP', hoth, _⟩ := unwrapNode_refines g hw hk
   have hopsR := unwrap_ops_wf hwf hk hq
   -- nodes and registers of the result
   obtain ⟨P1, g1, _, _, _, hn1⟩ := unwrapOne_refines g hw hq hc w.unwrap hopsR hP
@@ -303,27 +335,44 @@ theorem unwrapNode_sched {c : Dag} {P : Paths} {L : List (NodeId × Op)} (g : Go
       simp
   · -- nodes
     intro p
-    rw [hnodes, List.mem_filter, List.mem_append, List.mem_append, List.mem_append]
+    have hrq : r.ty ≠ .c := hwf.qregs_quantum r (by rw [hq]; simp)
+    have hwP : ∀ n o, wiredOp P' n o = wiredOp P n o := by
+      intro n o
+      apply wiredOp_congr
+      intro j _
+      rw [hoth ⟨.c, j⟩ (fun e => hrq (by rw [← e]))]
+    rw [List.mem_append, List.mem_append]
     constructor
     · rintro ((hp | hp) | hp)
       · have hpL : p ∈ L := by rw [hL]; exact List.mem_append_left _ hp
-        obtain ⟨hi, hm⟩ := (hS.nodes p).mp hpL
-        exact ⟨hi, Or.inl hm, by simpa using hne1 p hp⟩
-      · obtain ⟨⟨j, hj⟩, _⟩ := mem_newPairs hp
-        refine ⟨⟨_, hj⟩, Or.inr hp, ?_⟩
+        obtain ⟨hi, o, hm, ho⟩ := (hS.nodes p).mp hpL
+        exact ⟨hi, o, by rw [hnodes]; exact List.mem_filter.mpr ⟨List.mem_append.mpr (Or.inl hm), by simpa using hne1 p hp⟩,
+          by rw [ho, hwP]⟩
+      · obtain ⟨⟨j, hj⟩, hu⟩ := mem_newPairs hp
+        obtain ⟨_, _, hoc⟩ := hopsR p.2 hu
+        refine ⟨⟨_, hj⟩, p.2, ?_, (wiredOp_of_cregs_nil hoc).symm⟩
+        rw [hnodes]
+        refine List.mem_filter.mpr ⟨List.mem_append.mpr (Or.inr hp), ?_⟩
         rw [hj]; simp; omega
       · have hpL : p ∈ L := by rw [hL]; exact List.mem_append_right _ (List.mem_cons_of_mem _ hp)
-        obtain ⟨hi, hm⟩ := (hS.nodes p).mp hpL
-        exact ⟨hi, Or.inl hm, by simpa using hne2 p hp⟩
-    · rintro ⟨hi, hm | hm, hne⟩
-      · have hpL : p ∈ L := (hS.nodes p).mpr ⟨hi, hm⟩
+        obtain ⟨hi, o, hm, ho⟩ := (hS.nodes p).mp hpL
+        exact ⟨hi, o, by rw [hnodes]; exact List.mem_filter.mpr ⟨List.mem_append.mpr (Or.inl hm), by simpa using hne2 p hp⟩,
+          by rw [ho, hwP]⟩
+    · rintro ⟨hi, o, hm, ho⟩
+      rw [hnodes] at hm
+      obtain ⟨hm, hne⟩ := List.mem_filter.mp hm
+      rcases List.mem_append.mp hm with hm | hm
+      · have hpL : p ∈ L := (hS.nodes p).mpr ⟨hi, o, hm, by rw [ho, hwP]⟩
         rw [hL] at hpL
         rcases List.mem_append.mp hpL with h | h
         · exact Or.inl (Or.inl h)
         · rcases List.mem_cons.mp h with h | h
           · exfalso; rw [h] at hne; simp at hne
           · exact Or.inr h
-      · exact Or.inl (Or.inr hm)
+      · obtain ⟨_, hu⟩ := mem_newPairs hm
+        obtain ⟨_, _, hoc⟩ := hopsR o hu
+        have : p = (p.1, o) := Prod.ext rfl (by rw [ho]; exact wiredOp_of_cregs_nil hoc)
+        rw [this]; exact Or.inl (Or.inr hm)
   · -- no duplicates
     have hndL := hS.nodup
     rw [hL, List.map_append, List.map_cons, List.nodup_append] at hndL
@@ -333,7 +382,7 @@ theorem unwrapNode_sched {c : Dag} {P : Paths} {L : List (NodeId × Op)} (g : Go
       intro p hp q hq e
       obtain ⟨⟨j, hj⟩, _⟩ := mem_newPairs hp
       have := g.inv.op_range (c.nodeId + 1 + j) (by
-        rw [← hj, ← e]; exact mem_nodeIds.mpr ⟨q.2, ((hS.nodes q).mp hq).2⟩)
+        rw [← hj, ← e]; exact hS.mem_nodeIds hq)
       omega
     rw [List.map_append, List.map_append, List.nodup_append]
     refine ⟨?_, n2.2, ?_⟩
@@ -359,10 +408,10 @@ theorem unwrapNode_sched {c : Dag} {P : Paths} {L : List (NodeId × Op)} (g : Go
     · exact hS.live p (by rw [hL]; exact List.mem_append_right _ (List.mem_cons_of_mem _ hp)) r' hr'
 
 theorem Sched.mem_opsOf {c : Dag} {P : Paths} {L : List (NodeId × Op)} (hS : Sched c P L) {o : Op}
-    (ho : o ∈ L.map (·.2)) : o ∈ opsOf c := by
+    (ho : o ∈ L.map (·.2)) : ∃ o' ∈ opsOf c, ∃ n, o = wiredOp P n o' := by
   obtain ⟨p, hp, rfl⟩ := List.mem_map.mp ho
-  obtain ⟨i, _, hm⟩ := hS.op_node hp
-  exact Metrics.mem_opsOf.mpr ⟨i, hm⟩
+  obtain ⟨i, o', _, hm, hpo⟩ := hS.op_node hp
+  exact ⟨o', Metrics.mem_opsOf.mpr ⟨i, hm⟩, _, hpo⟩
 
 theorem unwrapLoop_sched {c : Dag} {P : Paths} {L : List (NodeId × Op)} (g : Good c P) (hS : Sched c P L)
     (ns : List NodeId) (hnd : ns.Nodup)
@@ -441,7 +490,7 @@ theorem unwrapNodes_sched {c : Dag} {P : Paths} {L : List (NodeId × Op)} (g : G
   symm
   apply flatMap_unwrap_of_base
   intro o ho
-  have hmemops := hS'.mem_opsOf ho
+  obtain ⟨o', hmemops, n', rfl⟩ := hS'.mem_opsOf ho
   have hcount := (unwrapNodes_count g hpl (fun o => decide (o.kind = .wrapper))).2
   rw [unwrapNodes_eq_loop] at hcount
   have hzero : ((opsOf c).flatMap Op.unwrap).countP (fun o => decide (o.kind = .wrapper)) = 0 := by
@@ -451,7 +500,7 @@ theorem unwrapNodes_sched {c : Dag} {P : Paths} {L : List (NodeId × Op)} (g : G
     obtain ⟨j, hj⟩ := Metrics.mem_opsOf.mp hw
     simpa using unwrap_base_of_plain (hpl j w hj) o' how
   rw [hzero, List.countP_eq_zero] at hcount
-  simpa using hcount o hmemops
+  simpa using hcount o' hmemops
 
 /-! ## `remove_op` / `remove_identity` on the schedule -/
 
@@ -467,15 +516,16 @@ theorem erase_cons_append_singleton {a b n : NodeId} (ha : a ≠ n) (hb : b ≠ 
 
 theorem removeNode_sched {c : Dag} {P : Paths} {L : List (NodeId × Op)} (g : Good c P) (hS : Sched c P L) {i : Nat} {w : Op}
     (hw : (NodeId.op i, w) ∈ c.nodes) :
-    ∃ L1 L2, L = L1 ++ (NodeId.op i, w) :: L2 ∧ Sched (c.removeOp (.op i)).1 (erasePaths P (.op i)) (L1 ++ L2) := by
-  have hwL : (NodeId.op i, w) ∈ L := (hS.nodes _).mpr ⟨⟨i, rfl⟩, hw⟩
+    ∃ L1 L2, L = L1 ++ (NodeId.op i, wiredOp P (.op i) w) :: L2 ∧
+      Sched (c.removeOp (.op i)).1 (erasePaths P (.op i)) (L1 ++ L2) := by
+  have hwL : (NodeId.op i, wiredOp P (.op i) w) ∈ L := hS.mem_of_node hw
   obtain ⟨L1, L2, hL⟩ := List.append_of_mem hwL
   obtain ⟨_, g2, hregs, _⟩ := removeOp_good g (mem_nodeIds.mpr ⟨w, hw⟩)
   have hnodes : (c.removeOp (.op i)).1.nodes = c.nodes.filter (fun p => p.1 ≠ .op i) := by
     rw [removeOp_eq ((opOf_eq_some g.inv.ids_nodup).mpr hw)]
     have F := removeFacts g.inv (.op i)
     simp only [removed, F.nodes]
-  obtain ⟨hne1, hne2⟩ := nodup_fst_split (q := (NodeId.op i, w)) (by rw [← hL]; exact hS.nodup)
+  obtain ⟨hne1, hne2⟩ := nodup_fst_split (q := (NodeId.op i, wiredOp P (.op i) w)) (by rw [← hL]; exact hS.nodup)
   have hnot : ∀ r, NodeId.op i ∉ schedWire L1 r ∧ NodeId.op i ∉ schedWire L2 r := by
     intro r
     constructor
@@ -487,30 +537,39 @@ theorem removeNode_sched {c : Dag} {P : Paths} {L : List (NodeId × Op)} (g : Go
     unfold erasePaths
     rw [hS.wire r hl0, erase_cons_append_singleton (by simp) (by simp), hL, schedWire_append, schedWire_append]
     congr 2
-    by_cases hr : r ∈ opRegs w
-    · rw [schedWire_cons_pos (p := (NodeId.op i, w)) hr]
+    by_cases hr : r ∈ opRegs (wiredOp P (.op i) w)
+    · rw [schedWire_cons_pos (p := (NodeId.op i, wiredOp P (.op i) w)) hr]
       exact erase_append_mid (hnot r).1
-    · rw [schedWire_cons_neg (p := (NodeId.op i, w)) hr]
+    · rw [schedWire_cons_neg (p := (NodeId.op i, wiredOp P (.op i) w)) hr]
       apply List.erase_of_not_mem
       intro hm
       rcases List.mem_append.mp hm with hm | hm
       · exact (hnot r).1 hm
       · exact (hnot r).2 hm
   · intro p
-    rw [hnodes, List.mem_filter, List.mem_append]
+    have hwP : ∀ n o, n ≠ NodeId.op i → wiredOp (erasePaths P (.op i)) n o = wiredOp P n o := by
+      intro n o hn
+      apply wiredOp_congr
+      intro j _
+      unfold erasePaths
+      rw [List.mem_erase_of_ne hn]
+    rw [List.mem_append]
     constructor
     · rintro (hp | hp)
-      · obtain ⟨hi, hm⟩ := (hS.nodes p).mp (by rw [hL]; exact List.mem_append_left _ hp)
-        exact ⟨hi, hm, by simpa using hne1 p hp⟩
-      · obtain ⟨hi, hm⟩ := (hS.nodes p).mp (by rw [hL]; exact List.mem_append_right _ (List.mem_cons_of_mem _ hp))
-        exact ⟨hi, hm, by simpa using hne2 p hp⟩
-    · rintro ⟨hi, hm, hne⟩
-      have hpL : p ∈ L := (hS.nodes p).mpr ⟨hi, hm⟩
+      · obtain ⟨hi, o, hm, ho⟩ := (hS.nodes p).mp (by rw [hL]; exact List.mem_append_left _ hp)
+        exact ⟨hi, o, by rw [hnodes]; exact List.mem_filter.mpr ⟨hm, by simpa using hne1 p hp⟩, by rw [ho, hwP _ _ (hne1 p hp)]⟩
+      · obtain ⟨hi, o, hm, ho⟩ := (hS.nodes p).mp (by rw [hL]; exact List.mem_append_right _ (List.mem_cons_of_mem _ hp))
+        exact ⟨hi, o, by rw [hnodes]; exact List.mem_filter.mpr ⟨hm, by simpa using hne2 p hp⟩, by rw [ho, hwP _ _ (hne2 p hp)]⟩
+    · rintro ⟨hi, o, hm, ho⟩
+      rw [hnodes] at hm
+      obtain ⟨hm, hne⟩ := List.mem_filter.mp hm
+      have hne' : p.1 ≠ NodeId.op i := by simpa using hne
+      have hpL : p ∈ L := (hS.nodes p).mpr ⟨hi, o, hm, by rw [ho, hwP _ _ hne']⟩
       rw [hL] at hpL
       rcases List.mem_append.mp hpL with h | h
       · exact Or.inl h
       · rcases List.mem_cons.mp h with h | h
-        · exfalso; rw [h] at hne; simp at hne
+        · exfalso; rw [h] at hne'; exact hne' rfl
         · exact Or.inr h
   · have hndL := hS.nodup
     rw [hL, List.map_append, List.map_cons, List.nodup_append] at hndL
@@ -525,7 +584,7 @@ theorem removeNode_sched {c : Dag} {P : Paths} {L : List (NodeId × Op)} (g : Go
     · exact hS.live p (by rw [hL]; exact List.mem_append_right _ (List.mem_cons_of_mem _ hp)) r hr
 
 theorem removeAll_sched {c : Dag} {P : Paths} {L : List (NodeId × Op)} (g : Good c P) (hS : Sched c P L) (q : Op → Bool)
-    (ns : List NodeId) (hnd : ns.Nodup)
+    (hqw : ∀ P n o, q (wiredOp P n o) = q o) (ns : List NodeId) (hnd : ns.Nodup)
     (hns : ∀ n ∈ ns, (∃ j, n = NodeId.op j) ∧ n ∈ c.nodeIds ∧ ∀ op, (n, op) ∈ c.nodes → q op = false) :
     ∃ P' L', Good (c.removeAll ns).1 P' ∧ Sched (c.removeAll ns).1 P' L' ∧
       (L'.map (·.2)).filter q = (L.map (·.2)).filter q := by
@@ -560,7 +619,7 @@ theorem removeAll_sched {c : Dag} {P : Paths} {L : List (NodeId × Op)} (g : Goo
       obtain ⟨P3, L3, g3, hS3, hfl3⟩ := ih g2 hS2 hnd'.2 hns'
       refine ⟨P3, L3, g3, hS3, hfl3.trans ?_⟩
       rw [hL]
-      simp [List.filter_append, List.filter_cons, hqn w hw]
+      simp [List.filter_append, List.filter_cons, hqw, hqn w hw]
 
 /-- **`remove_identity` on the schedule**: the schedule afterwards holds, in order, the non-identity operations -/
 theorem removeIdentity_sched {c : Dag} {P : Paths} {L : List (NodeId × Op)} (g : Good c P) (hS : Sched c P L) (hpl : AllPlain c) :
@@ -579,14 +638,14 @@ theorem removeIdentity_sched {c : Dag} {P : Paths} {L : List (NodeId × Op)} (g 
     have h2 := (opOf_eq_some g.inv.ids_nodup).mpr hm'
     rw [h1] at h2; injection h2 with h2; subst h2
     simp [hk]
-  obtain ⟨P', L', g', hS', hfl⟩ := removeAll_sched g hS (fun o => !decide (o.kind = .identity)) _ hnd hns
+  obtain ⟨P', L', g', hS', hfl⟩ := removeAll_sched g hS (fun o => !decide (o.kind = .identity)) (fun _ _ _ => rfl) _ hnd hns
   rw [removeIdentity_eq_all]
   refine ⟨P', L', g', hS', ?_⟩
   rw [← hfl]
   symm
   rw [List.filter_eq_self]
   intro o ho
-  have hmemops := hS'.mem_opsOf ho
+  obtain ⟨o', hmemops, n', rfl⟩ := hS'.mem_opsOf ho
   have hcount := (removeIdentity_count g hpl (fun o => decide (o.kind = .identity))).2
   rw [removeIdentity_eq_all] at hcount
   have hzero : ((opsOf c).filter (fun o => !decide (o.kind = .identity))).countP (fun o => decide (o.kind = .identity)) = 0 := by
@@ -595,10 +654,18 @@ theorem removeIdentity_sched {c : Dag} {P : Paths} {L : List (NodeId × Op)} (g 
     have := (List.mem_filter.mp ho').2
     simpa using this
   rw [hzero, List.countP_eq_zero] at hcount
-  have := hcount o hmemops
-  simpa using this
+  have := hcount o' hmemops
+  simp only [wiredOp_kind]
+  simp only [decide_eq_true_eq] at this
+  simp [this]
 
 /-! ## the prepared copy -/
+
+theorem plainOp'_of_wiredOp {P : Paths} {n : NodeId} {o : Op} (h : PlainOp' (wiredOp P n o)) : PlainOp' o :=
+  { labels := h.labels, arity := h.arity, inner_base := h.inner_base }
+
+theorem plainOp'_wiredOp {P : Paths} {n : NodeId} {o : Op} (h : PlainOp' o) : PlainOp' (wiredOp P n o) :=
+  { labels := h.labels, arity := h.arity, inner_base := h.inner_base }
 
 theorem prep_eq_ok {c c' : Dag} (h : prep c = .ok c') : c' = (c.unwrapNodes.1.removeIdentity).1 := by
   unfold prep at h
@@ -630,10 +697,10 @@ theorem prep_sched (ne np nc : Nat) (seq : List Op) (hseq : PlainSeq' seq) (hok 
   obtain ⟨P1, L1, g1, hS1, hL1⟩ := unwrapNodes_sched g hS hpl
   have hpl1 : AllPlain (build ne np nc seq).1.unwrapNodes.1 := by
     intro i o hm
-    have h1 : o ∈ L1.map (·.2) :=
-      List.mem_map.mpr ⟨(.op i, o), (hS1.nodes _).mpr ⟨⟨i, rfl⟩, hm⟩, rfl⟩
+    have h1 : wiredOp P1 (.op i) o ∈ L1.map (·.2) :=
+      List.mem_map.mpr ⟨_, hS1.mem_of_node hm, rfl⟩
     rw [hL1, hL] at h1
-    exact plain_flatMap_unwrap (fun o ho => (hseq o ho).2) o h1
+    exact plainOp'_of_wiredOp (plain_flatMap_unwrap (fun o ho => (hseq o ho).2) _ h1)
   obtain ⟨P2, L2, g2, hS2, hL2⟩ := removeIdentity_sched g1 hS1 hpl1
   have hc' := prep_eq_ok hprep
   refine ⟨c', P2, L2, hprep, by rw [hc']; exact g2, by rw [hc']; exact hS2, ?_, hregs⟩
